@@ -18,6 +18,9 @@ FILTER_MENU = [
     [{'k': 'edit', 'ops': [{'k': 'add', 'kv': [['x', 5]]}]}, {'k': 'nfu'}],
     [{'k': 'const', 'r': 'truthy'}, {'k': 'edit', 'ops': [{'k': 'delete', 'keys': ['source']}]}],
     [{'k': 'edit', 'ops': [{'k': 'copy', 'src': 'value', 'dst': 'previous'}]}],
+    # mutable mappings that are not dicts
+    [{'k': 'edit', 'ops': [{'k': 'add', 'kv': [['x', 5]]}, {'k': 'delete', 'keys': ['previous']}], 'wrap': 'userdict'}],
+    [{'k': 'edit', 'ops': [{'k': 'delete', 'keys': ['source', 'trigger']}], 'wrap': 'chainmap'}, {'k': 'nfu'}],
     # a filter may hand on an EMPTY mapping: still an accepted event (with no data items)
     [{'k': 'edit', 'ops': [{'k': 'permit', 'keys': []}]}],
     [{'k': 'edit', 'ops': [{'k': 'permit', 'keys': []}]}, {'k': 'edit', 'ops': [{'k': 'add', 'kv': [['x', 5]]}]}],
